@@ -108,6 +108,26 @@ def saturation_races(thorough):
             script.append({"op": "multi", "ops": [{"op": "after", "n": k, "ops": [em(p + 2)]}, {"op": "jobdone", "job": 0},
                                                   {"op": "after", "n": k, "ops": [em(p + 3)]}]})
             out.append((nodes, script))
+    # stop();start() while the worker is idle (waiting for work), then emissions: the stopped worker may still take the element it was
+    # waiting for, but the element is delivered (and its reference released) all the same; restart on the node itself or below it
+    for p in (1, 2):
+        for sink in ("sync", "async"):
+            for at in (1, 2):
+                for warm in (0, 1):
+                    nodes = [{"kind": "source", "ups": []}, {"kind": "map_async", "f": ["inc"], "parallelism": p, "ups": [0]},
+                             {"kind": "sink", "mode": sink, "f": ["id"], "ups": [1]}]
+
+                    def em(v):
+                        return {"op": "emit", "node": 0, "val": v, "md": [{"tag": v, "ref": v}]}
+                    script, j = [], 0
+                    for v in range(1, warm + 1):
+                        script += [em(v), {"op": "jobdone", "job": j}] + ([{"op": "sinkdone", "tok": j}] if sink == "async" else [])
+                        j += 1
+                    script.append({"op": "restart", "node": at})
+                    for v in range(warm + 1, warm + 3):
+                        script += [em(v), {"op": "jobdone", "job": j}] + ([{"op": "sinkdone", "tok": j}] if sink == "async" else [])
+                        j += 1
+                    out.append((nodes, script))
     return out
 
 
